@@ -216,6 +216,7 @@ func c07Exec(input sx.S) (obs sx.S) {
 	secs := sx.List(input)[1:]
 	execNastyStrings = true
 	defer func() { execNastyStrings = false }()
+	defer withMaxDepth(secs)()
 	root, w, fail := execSetup(secs)
 	if fail != nil {
 		return fail
@@ -418,7 +419,7 @@ func c07Valid(input sx.S) bool {
 	return true
 }
 
-var profC07 = profile{pFail: 0.2, pIll: 0.1, pDir: 0.15, pAlias: 0.3, pFrag: 0.15, pInline: 0.15, pArgs: 0.8, pAny: 0.4, pBadCall: 0.2, pNullObj: 0.05, maxDepth: 4, calls: 1}
+var profC07 = profile{pFail: 0.2, pIll: 0.1, pDir: 0.15, pAlias: 0.3, pFrag: 0.15, pInline: 0.15, pArgs: 0.8, pAny: 0.4, pBadCall: 0.2, pNullObj: 0.05, maxDepth: 4, calls: 1, fullDepth: true}
 
 func c07Gen(r *rand.Rand, tier string) []Case {
 	n := 600
